@@ -200,7 +200,10 @@ func c02(c *core.Ctx) {
 		}
 		gcmFn := c.Fn(cons + ".GetCorrectMiner")
 		cnt(condGuard(c, gcmFn, "mineTime<parent.Time", nil, func(sl map[ssa.Value]bool) bool {
-			return core.SliceHasField(sl, c.FieldVar("chain/types.Header", "Time")) && sl[gcmFn.Params[1]] && core.SliceHasOp(sl, token.LSS)
+			// the raw difference mineTime − parent.Time·1000 is tested, not a remainder or quotient of it (Go's % maps the negative multiples
+			// of the round length to 0, so a block older than its parent by whole rounds would pass)
+			return core.SliceHasField(sl, c.FieldVar("chain/types.Header", "Time")) && sl[gcmFn.Params[1]] && core.SliceHasOp(sl, token.LSS) &&
+				!core.SliceHasOp(sl, token.REM) && !core.SliceHasOp(sl, token.QUO)
 		}))
 		// deputy root
 		fn = c.Fn(cons + ".verifyDeputy")
